@@ -6,42 +6,17 @@ import WzVerif.Lemmas.RoutingTrie2
 namespace Wz.Routing
 open State
 
-/-- strict weak order on a Bool-valued relation: asymmetric, and `≤ := ¬ >` is transitive -/
+/-- strict weak order on a Bool-valued relation: asymmetric, and `x ≤ y := ¬ y < x` is transitive -/
 structure SWO {α : Type} (lt : α → α → Bool) : Prop where
   asymm : ∀ a b, lt a b = true → lt b a = false
   negtrans : ∀ a b c, lt b a = false → lt c b = false → lt c a = false
-
-/-- lexicographic combination of two comparisons on the same carrier -/
-def lexLt {α : Type} (f g : α → α → Bool) (a b : α) : Bool := f a b || (!f b a && g a b)
-
-/-- propositional core of "a lexicographic product of strict weak orders is one" (asymmetry) -/
-theorem lex_asymm_core : ∀ (fab fba gab gba : Bool),
-    (fab = true → fba = false) → (fba = true → fab = false) → (gab = true → gba = false) →
-    (fab || (!fba && gab)) = true → (fba || (!fab && gba)) = false := by decide
-
-theorem lex_negtrans_core : ∀ (fab fba fbc fcb fac fca gba gcb gca : Bool),
-    (fab = true → fba = false) → (fbc = true → fcb = false) → (fac = true → fca = false) →
-    -- negtrans instances of f
-    (fba = false → fcb = false → fca = false) →
-    (fab = false → fca = false → fcb = false → True) →
-    (fca = false → fab = false → fcb = false ∨ fcb = true) →
-    -- a<b, b≤c ⇒ a<c ; a≤b, b<c ⇒ a<c  (consequences of negtrans, supplied by the caller)
-    (fab = true → fcb = false → fac = true) →
-    (fba = false → fbc = true → fac = true) →
-    -- equivalence classes: a~b, b~c ⇒ a~c (supplied)
-    (fab = false → fba = false → fbc = false → fcb = false → fac = false) →
-    -- negtrans of g
-    (gba = false → gcb = false → gca = false) →
-    (fba || (!fab && gba)) = false → (fcb || (!fbc && gcb)) = false → (fca || (!fac && gca)) = false := by
-  decide
 
 theorem SWO.lt_of_lt_of_le {α} {lt : α → α → Bool} (h : SWO lt) {a b c : α}
     (hab : lt a b = true) (hbc : lt c b = false) : lt a c = true := by
   cases hac : lt a c with
   | true => rfl
   | false =>
-    -- c ≤ b?  we have b ≤ c (hbc) and c ≤ a (hac) ⇒ b ≤ a, contradiction with a < b
-    have := h.negtrans c b a hbc (by simpa using hac)
+    have := h.negtrans b c a hbc hac
     rw [hab] at this; cases this
 
 theorem SWO.lt_of_le_of_lt {α} {lt : α → α → Bool} (h : SWO lt) {a b c : α}
@@ -49,17 +24,192 @@ theorem SWO.lt_of_le_of_lt {α} {lt : α → α → Bool} (h : SWO lt) {a b c : 
   cases hac : lt a c with
   | true => rfl
   | false =>
-    have := h.negtrans b a c hac hab
+    have := h.negtrans c a b hac hab
     rw [hbc] at this; cases this
 
+/-- lexicographic combination of two comparisons on the same carrier -/
+def lexLt {α : Type} (f g : α → α → Bool) (a b : α) : Bool := f a b || (!f b a && g a b)
+
 theorem SWO.lex {α} {f g : α → α → Bool} (hf : SWO f) (hg : SWO g) : SWO (lexLt f g) where
-  asymm a b h := lex_asymm_core (f a b) (f b a) (g a b) (g b a) (hf.asymm a b) (hf.asymm b a) (hg.asymm a b) h
-  negtrans a b c h1 h2 :=
-    lex_negtrans_core (f a b) (f b a) (f b c) (f c b) (f a c) (f c a) (g b a) (g c b) (g c a)
-      (hf.asymm a b) (hf.asymm b c) (hf.asymm a c) (hf.negtrans a b c) (fun _ _ _ => trivial)
-      (fun _ _ => by cases f c b <;> simp)
-      (fun h1 h2 => hf.lt_of_lt_of_le h1 h2) (fun h1 h2 => hf.lt_of_le_of_lt h1 h2)
-      (fun h1 h2 h3 h4 => hf.negtrans c b a h3 h1 |> fun _ => hf.negtrans c b a h3 h1)
-      (hg.negtrans a b c) h1 h2
+  asymm a b h := by
+    simp only [lexLt, Bool.or_eq_true, Bool.and_eq_true, Bool.not_eq_true'] at h
+    simp only [lexLt, Bool.or_eq_false_iff, Bool.and_eq_false_imp, Bool.not_eq_true']
+    rcases h with h | ⟨h1, h2⟩
+    · exact ⟨hf.asymm a b h, fun h' => by rw [h] at h'; cases h'⟩
+    · exact ⟨h1, fun _ => hg.asymm a b h2⟩
+  negtrans a b c h1 h2 := by
+    simp only [lexLt, Bool.or_eq_false_iff, Bool.and_eq_false_imp, Bool.not_eq_true'] at h1 h2 ⊢
+    obtain ⟨h1a, h1b⟩ := h1
+    obtain ⟨h2a, h2b⟩ := h2
+    refine ⟨hf.negtrans a b c h1a h2a, ?_⟩
+    intro hac
+    cases hab : f a b with
+    | false =>
+      cases hbc : f b c with
+      | false => exact hg.negtrans a b c (h1b hab) (h2b hbc)
+      | true => have := hf.lt_of_le_of_lt h1a hbc; rw [hac] at this; cases this
+    | true => have := hf.lt_of_lt_of_le hab h2a; rw [hac] at this; cases this
+
+
+theorem SWO.int_key {α} (k : α → Int) : SWO (fun a b => decide (k a < k b)) where
+  asymm a b h := by simp only [decide_eq_true_eq, decide_eq_false_iff_not] at h ⊢; omega
+  negtrans a b c h1 h2 := by simp only [decide_eq_false_iff_not] at h1 h2 ⊢; omega
+
+theorem swo_intLt : SWO intLt := by
+  have := SWO.int_key (fun (x : Int) => x)
+  exact this
+
+theorem swo_pairLt : SWO pairLt := by
+  have h := SWO.lex (SWO.int_key (fun (x : Int × Int) => x.1)) (SWO.int_key (fun (x : Int × Int) => x.2))
+  have heq : pairLt = lexLt (fun a b => decide (a.1 < b.1)) (fun a b => decide (a.2 < b.2)) := by
+    funext a b
+    simp only [pairLt, lexLt]
+    by_cases h1 : a.1 < b.1
+    · simp [h1]
+    · by_cases h2 : b.1 < a.1
+      · have : ¬ a.1 = b.1 := by omega
+        simp [h1, h2, this]
+      · have : a.1 = b.1 := by omega
+        simp [h1, h2, this]
+  rw [heq]; exact h
+
+/-- Python list comparison over a strict weak order is a strict weak order -/
+theorem swo_listLt {α} {lt : α → α → Bool} (h : SWO lt) : SWO (listLt lt) where
+  asymm := by
+    intro a
+    induction a with
+    | nil => intro b hb; cases b <;> simp_all [listLt]
+    | cons x xs ih =>
+      intro b hb
+      cases b with
+      | nil => simp [listLt] at hb
+      | cons y ys =>
+        simp only [listLt, Bool.or_eq_true, Bool.and_eq_true, Bool.not_eq_true'] at hb
+        simp only [listLt, Bool.or_eq_false_iff, Bool.and_eq_false_imp, Bool.not_eq_true']
+        rcases hb with hb | ⟨h1, h2⟩
+        · exact ⟨h.asymm x y hb, fun h' => by rw [hb] at h'; cases h'⟩
+        · exact ⟨h1, fun _ => ih ys h2⟩
+  negtrans := by
+    intro a
+    induction a with
+    | nil =>
+      intro b c h1 h2
+      cases c with
+      | nil => rfl
+      | cons z zs =>
+        simp [listLt]
+    | cons x xs ih =>
+      intro b c h1 h2
+      cases b with
+      | nil => simp [listLt] at h1
+      | cons y ys =>
+        cases c with
+        | nil => simp [listLt] at h2
+        | cons z zs =>
+          simp only [listLt, Bool.or_eq_false_iff, Bool.and_eq_false_imp, Bool.not_eq_true'] at h1 h2 ⊢
+          obtain ⟨h1a, h1b⟩ := h1
+          obtain ⟨h2a, h2b⟩ := h2
+          refine ⟨h.negtrans x y z h1a h2a, ?_⟩
+          intro hac
+          cases hab : lt x y with
+          | false =>
+            cases hbc : lt y z with
+            | false => exact ih ys zs (h1b hab) (h2b hbc)
+            | true => have := h.lt_of_le_of_lt h1a hbc; rw [hac] at this; cases this
+          | true => have := h.lt_of_lt_of_le hab h2a; rw [hac] at this; cases this
+
+theorem SWO.comap {α β} {lt : β → β → Bool} (h : SWO lt) (k : α → β) : SWO (fun a b => lt (k a) (k b)) :=
+  ⟨fun a b => h.asymm (k a) (k b), fun a b c => h.negtrans (k a) (k b) (k c)⟩
+
+theorem swo_weighting : SWO Weighting.lt := by
+  have h := SWO.lex (SWO.int_key (fun (w : Weighting) => w.nStatic))
+    (SWO.lex ((swo_listLt swo_pairLt).comap (fun (w : Weighting) => w.statics))
+      (SWO.lex (SWO.int_key (fun (w : Weighting) => w.nArgs))
+        ((swo_listLt swo_intLt).comap (fun (w : Weighting) => w.args))))
+  have heq : Weighting.lt = lexLt (fun a b => decide (a.nStatic < b.nStatic))
+      (lexLt (fun a b => listLt pairLt a.statics b.statics)
+        (lexLt (fun a b => decide (a.nArgs < b.nArgs)) (fun a b => listLt intLt a.args b.args))) := by
+    funext a b
+    simp only [Weighting.lt, lexLt]
+    have e1 : (a.nStatic == b.nStatic) = (!decide (b.nStatic < a.nStatic) && !decide (a.nStatic < b.nStatic)) := by
+      by_cases h1 : a.nStatic < b.nStatic
+      · have : ¬ a.nStatic = b.nStatic := by omega
+        have h2 : ¬ b.nStatic < a.nStatic := by omega
+        simp [h1, h2, this]
+      · by_cases h2 : b.nStatic < a.nStatic
+        · have : ¬ a.nStatic = b.nStatic := by omega
+          simp [h1, h2, this]
+        · have : a.nStatic = b.nStatic := by omega
+          simp [h1, h2, this]
+    have e2 : (a.nArgs == b.nArgs) = (!decide (b.nArgs < a.nArgs) && !decide (a.nArgs < b.nArgs)) := by
+      by_cases h1 : a.nArgs < b.nArgs
+      · have : ¬ a.nArgs = b.nArgs := by omega
+        have h2 : ¬ b.nArgs < a.nArgs := by omega
+        simp [h1, h2, this]
+      · by_cases h2 : b.nArgs < a.nArgs
+        · have : ¬ a.nArgs = b.nArgs := by omega
+          simp [h1, h2, this]
+        · have : a.nArgs = b.nArgs := by omega
+          simp [h1, h2, this]
+    rw [e1, e2]
+    cases decide (a.nStatic < b.nStatic) <;> cases decide (b.nStatic < a.nStatic) <;>
+      cases decide (a.nArgs < b.nArgs) <;> cases decide (b.nArgs < a.nArgs) <;> simp
+  rw [heq]; exact h
+
+/-! ### sortedness -/
+
+/-- no later entry is strictly lighter than an earlier one -/
+def DynSortedList (l : List (Part × State)) : Prop :=
+  l.Pairwise (fun a b => b.1.weight.lt a.1.weight = false)
+
+theorem insertDyn_sorted {x : Part × State} {l : List (Part × State)} (h : DynSortedList l) :
+    DynSortedList (insertDyn x l) := by
+  induction l with
+  | nil => simp [insertDyn, DynSortedList]
+  | cons y t ih =>
+    simp only [DynSortedList, List.pairwise_cons] at h
+    obtain ⟨hy, ht⟩ := h
+    simp only [insertDyn]
+    split
+    · rename_i hlt
+      simp only [DynSortedList, List.pairwise_cons]
+      refine ⟨?_, ih ht⟩
+      intro z hz
+      rcases List.mem_cons.1 ((insertDyn_perm x t).mem_iff.1 hz) with rfl | hz
+      · exact swo_weighting.asymm _ _ hlt
+      · exact hy z hz
+    · rename_i hlt
+      have hlt : y.1.weight.lt x.1.weight = false := by simpa using hlt
+      simp only [DynSortedList, List.pairwise_cons]
+      refine ⟨?_, hy, ht⟩
+      intro z hz
+      rcases List.mem_cons.1 hz with rfl | hz
+      · exact hlt
+      · exact swo_weighting.negtrans _ _ _ hlt (hy z hz)
+
+theorem sortDyn_sorted (l : List (Part × State)) : DynSortedList (sortDyn l) := by
+  induction l with
+  | nil => simp [sortDyn, DynSortedList]
+  | cons x t ih => exact insertDyn_sorted ih
+
+/-- every `dynamic` list below `st` is sorted by weight -/
+inductive Sorted : State → Prop
+  | node {rs ss ds} : DynSortedList ds → (∀ k s, (k, s) ∈ ss → Sorted s) → (∀ p s, (p, s) ∈ ds → Sorted s) →
+      Sorted (.node rs ss ds)
+
+theorem Sorted.update (st : State) : Sorted (State.update st) := by
+  induction st using State.induct with
+  | h rs ss ds ihs ihd =>
+    rw [update_node]
+    refine .node (sortDyn_sorted _) ?_ ?_
+    · intro k s hm
+      obtain ⟨s0, hm', rfl⟩ := mem_map_update.1 hm
+      exact ihs k s0 hm'
+    · intro p s hm
+      obtain ⟨s0, hm', rfl⟩ := mem_map_update.1 ((sortDyn_perm _).mem_iff.1 hm)
+      exact ihd p s0 hm'
+
+theorem Sorted.buildRoot (rules : List Rule) : Sorted (buildRoot rules) := by
+  rw [buildRoot_eq]; exact Sorted.update _
 
 end Wz.Routing
